@@ -23,6 +23,7 @@ type W struct {
 	Cases int
 	Ops   int
 	Stats map[string]int
+	hangs int
 }
 
 func New(path string) *W {
@@ -41,7 +42,20 @@ func (t *W) Case(format string, a ...any) {
 func (t *W) Op(op, obs string) {
 	t.Ops++
 	fmt.Fprintf(t.w, "%s => %s\n", op, obs)
+	// Every HANG costs a watchdog period: once the implementation has hung a
+	// few times the verdict is settled, stop instead of running for an hour.
+	if strings.HasPrefix(obs, "HANG") || strings.Contains(obs, " HANG") {
+		t.hangs++
+		if t.hangs >= MaxHangs {
+			fmt.Fprintf(t.w, "# aborted after %d HANG observations\n", t.hangs)
+			t.Close()
+			os.Exit(0)
+		}
+	}
 }
+
+// MaxHangs is the number of HANG observations after which a driver stops.
+var MaxHangs = 6
 
 func (t *W) Line(format string, a ...any) {
 	fmt.Fprintf(t.w, format+"\n", a...)
